@@ -216,9 +216,22 @@ pub fn run(ctx: &Ctx) -> CheckResult {
         default_instances(PROP, &[Kind::Sma, Kind::Wma, Kind::Sd, Kind::Mad, Kind::Min, Kind::Max, Kind::Bb], &mut o);
         res.absorb(o);
     }
+    // LAST (its listed findings must not switch off the stages above): prices just below
+    // f64::MAX, where any two-element sum overflows.  Reference and comparison after exact
+    // scaling by 2^-600.  SMA/WMA/SD/BB keep running sums / squared deltas that overflow
+    // here (listed findings); MAD, MIN, MAX handle these windows exactly today.
+    if !res.out.failed() {
+        let mut spaces = vec![];
+        for n in 1..=5usize {
+            for cfg in subjects(n, false) {
+                spaces.push(Space { cfg, alphabet: with_reset(s_ops(&S_NEARMAX)), depth: if th { 8 } else { 6 }, label: "near-max scalar" });
+            }
+        }
+        res.absorb(run_spaces(ctx, PROP, &spaces));
+    }
     res.rule = "case = (configuration, operation history) replayed on a fresh real instance, output of the last op compared with the from-scratch double-double statistic of the last min(t,n) inputs since reset; distinct by construction (tree nodes / de-duplicated concrete states); non-trivial = oracle applicable and history longer than the window (at least one eviction)".into();
     res.bounds = format!(
-        "seq(S_int+reset, {}), seq(S_rough, {}) and seq(S_tiny(2^-60 unit)+reset, same depth), seq(S_ulp = neighbours 1 and 4 ulps apart) for n=1..5 x {{SMA,WMA,SD,MAD,MIN,MAX,BB(mult 2; 0,0.5,3,-1 at depth-2)}}; BFS fixpoint over S_int for SMA/WMA/MAD/MIN/MAX n=1..{}; periods 65537 and 100000 on a 70000-step stream (checked around step 65536); Default::default() instances; deviation-bounded families (4 base streams, k<=1{} deviations at every position) for periods {:?}",
+        "seq(S_int+reset, {}), seq(S_rough, {}) and seq(S_tiny(2^-60 unit)+reset, same depth), seq(S_ulp = neighbours 1 and 4 ulps apart) for n=1..5 x {{SMA,WMA,SD,MAD,MIN,MAX,BB(mult 2; 0,0.5,3,-1 at depth-2)}}; BFS fixpoint over S_int for SMA/WMA/MAD/MIN/MAX n=1..{}; periods 65537 and 100000 on a 70000-step stream (checked around step 65536); Default::default() instances; seq(S_nearmax = {{1e308, 1.1e308, 1.2e308, 1.05e308}}+reset, 6/8) compared after exact scaling by 2^-600; deviation-bounded families (4 base streams, k<=1{} deviations at every position) for periods {:?}",
         d_int,
         d_rough,
         d_bfs_n,
